@@ -2,4 +2,4 @@
 From Coq Require Import ZArith ExtrOcamlBasic.
 Require Import ZV.Model.Pkg ZV.Model.PkgSpec.
 Extraction "model.ml" Z.add Z.mul Z.opp Z.div_eucl Z.of_nat Z.to_nat Z.compare
-  heap0 build_world run_op spec_op crosses hash_map scope_map.
+  heap0 build_world run_op spec_op hash_map scope_map.
